@@ -8,6 +8,7 @@ Inductive case :=
 | CPT (ops : list pop)
 | CVR (ops : list vop)
 | CFR (ops : list fop)
+| CCH (shared : bool) (ops : list cop)
 | CCONV (k : nat).
 
 Definition z_nat (z : Z) : option nat := if (0 <=? z) && (z <? 1000000) then Some (Z.to_nat z) else None.
@@ -121,9 +122,27 @@ Definition parse_vop (l : list tok) : option vop :=
 
 Definition parse_fop (l : list tok) : option fop :=
   match l with
-  | [t] => if is_tag "bool" t then Some FBool else None
-  | [t; TZ k] => if is_tag "bind" t then option_map FBind (z_nat k) else None
-  | [t; TZ a; TZ b] => if is_tag "call" t then Some (FCall a b) else if is_tag "ccall" t then Some (FCopyCall a b) else None
+  | [t] => if is_tag "bool" t then Some FBool else if is_tag "boolc" t then Some FBoolC
+           else if is_tag "drop" t then Some FDrop else None
+  | [t; TZ k] => if is_tag "bind" t then option_map FBind (z_nat k)
+                 else if is_tag "copy" t then option_map FCopy (z_nat k) else None
+  | [t; TZ a; TZ b] => if is_tag "call" t then Some (FCall a b) else if is_tag "ccall" t then Some (FCopyCall a b)
+                       else if is_tag "callc" t then Some (FCallC a b) else None
+  | _ => None
+  end.
+
+Definition parse_cop (l : list tok) : option cop :=
+  match l with
+  | [t] =>
+      if is_tag "push" t then Some CPush else if is_tag "pushaux" t then Some CPushAux
+      else if is_tag "append" t then Some CAppend else if is_tag "pop" t then Some CPop
+      else if is_tag "pop2" t then Some CPop2 else if is_tag "popr" t then Some CPopR
+      else if is_tag "popc" t then Some CPopC else if is_tag "cuttail" t then Some CCutTail
+      else if is_tag "split" t then Some CSplit else if is_tag "join" t then Some CJoin
+      else if is_tag "swapaux" t then Some CSwapAux else if is_tag "swaptail" t then Some CSwapTail
+      else if is_tag "detach" t then Some CDetach else if is_tag "movehead" t then Some CMoveHead
+      else if is_tag "selfnext" t then Some CSelfNext else if is_tag "clear" t then Some CClear
+      else if is_tag "clearaux" t then Some CClearAux else None
   | _ => None
   end.
 
@@ -144,6 +163,8 @@ Definition parse_case (l : list tok) : option case :=
       else if is_tag "PT" t then option_map CPT (parse_all parse_pop (op_segs rest))
       else if is_tag "VR" t then option_map CVR (parse_all parse_vop (op_segs rest))
       else if is_tag "FR" t then option_map CFR (parse_all parse_fop (op_segs rest))
+      else if is_tag "CHU" t then option_map (CCH false) (parse_all parse_cop (op_segs rest))
+      else if is_tag "CHS" t then option_map (CCH true) (parse_all parse_cop (op_segs rest))
       else if is_tag "CONV" t then
         match rest with
         | [TZ k] => match z_nat k with
@@ -210,6 +231,7 @@ Definition run_model (l : list tok) : list tok :=
   | Some (CPT ops) => join_segs (prun pinit ops ++ [std_trailer])
   | Some (CVR ops) => join_segs (vrun vinit ops ++ [std_trailer])
   | Some (CFR ops) => join_segs (frun finit ops ++ [std_trailer])
+  | Some (CCH sh ops) => join_segs (crun sh cinit ops ++ [std_trailer])
   | Some (CCONV k) => conv_obs k
   | None => bad_case
   end.
@@ -253,7 +275,8 @@ Definition run_tag (l : list tok) : list tok :=
                           else if Nat.ltb (sp_idx c) (sp_cnt c) then "sp_index_in" else "sp_index_out")]
   | Some (CPT ops) => [tag (match ops with [] => "pt_empty" | _ => if existsb pop_is_self ops then "pt_self" else "pt" end)]
   | Some (CVR ops) => [tag (match ops with [] => "vr_empty" | _ => "vr" end)]
-  | Some (CFR ops) => [tag (match ops with [] => "fr_empty" | _ => "fr" end)]
+  | Some (CFR ops) => [tag (match ops with [] => "fr_empty" | _ => if existsb (fun o => match o with FCopy _ => true | _ => false end) ops then "fr_copy" else "fr" end)]
+  | Some (CCH sh ops) => [tag (match ops with [] => "ch_empty" | _ => if sh then "chs" else "chu" end)]
   | Some (CCONV k) => [tag "conv"]
   | None => bad_case
   end.
@@ -265,6 +288,7 @@ Definition run_spec (l obs : list tok) : list tok :=
   | Some (CPT ops) => spec_pt ops (split_toks ";" obs)
   | Some (CVR ops) => spec_vr ops (split_toks ";" obs)
   | Some (CFR ops) => spec_fr ops (split_toks ";" obs)
+  | Some (CCH sh ops) => spec_ch sh ops (split_toks ";" obs)
   | Some (CCONV k) => spec_conv k obs
   | None => bad_case
   end.
